@@ -64,6 +64,26 @@ func parseReachable(p *Program, roots []*ssa.Function) ([]*ssa.Function, []ssa.I
 					visit(mc)
 					continue
 				}
+				// a callback the enclosing helper was handed (every static caller's argument), one of several local
+				// function values, or an entry of a read-only table
+				if ts, ok := paramFuncTargets(p, cc.Value); ok {
+					for _, t := range ts {
+						visit(t)
+					}
+					continue
+				}
+				if ts, ok := localFuncTargets(cc.Value); ok {
+					for _, t := range ts {
+						visit(t)
+					}
+					continue
+				}
+				if ts := roTableTargets(p, cc.Value); len(ts) > 0 {
+					for _, t := range ts {
+						visit(t)
+					}
+					continue
+				}
 				dyn = append(dyn, in)
 			}
 		}
@@ -298,6 +318,54 @@ func inventoryMayPanic(c *Ctx, p *Program, fns []*ssa.Function, prefix string) (
 						}
 						continue
 					}
+					func() {
+						// a method of a library type called on a pointer that may be nil (a local filled in by errors.As, an
+						// optional field): the library dereferences its receiver
+						callee := x.Call.StaticCallee()
+						if callee == nil || x.Call.IsInvoke() || callee.Signature.Recv() == nil || len(x.Call.Args) == 0 || p.OwnedFunc(callee) {
+							return
+						}
+						if _, isPtr := callee.Signature.Recv().Type().Underlying().(*types.Pointer); !isPtr {
+							return
+						}
+						recv := x.Call.Args[0]
+						if !pointerMayBeNil(recv) {
+							return
+						}
+						if ld, ok := recv.(*ssa.UnOp); ok {
+							if _, isGlobal := ld.X.(*ssa.Global); isGlobal {
+								return // package-level objects (compiled patterns) are set up by the initialiser
+							}
+						}
+						pt := vw.Term(recv)
+						guarded := false
+						for _, a := range vw.GuardsAt(b) {
+							if op, l, r, ok := normAtom(a); ok && op == "!=" {
+								if l.IsNil() {
+									l, r = r, l
+								}
+								if r.IsNil() && l.String() == pt.String() {
+									guarded = true
+								}
+							}
+							// `if errors.As(err, &local)`: the target was filled in
+							if a.Taken && a.Instr != nil {
+								if ac, ok := a.Instr.Cond.(*ssa.Call); ok {
+									if f := ac.Call.StaticCallee(); f != nil && f.Pkg != nil && f.Pkg.Pkg.Path() == "errors" && f.Name() == "As" && len(ac.Call.Args) == 2 {
+										tgt := ac.Call.Args[1]
+										if mi, ok := tgt.(*ssa.MakeInterface); ok {
+											tgt = mi.X
+										}
+										if ld, ok := recv.(*ssa.UnOp); ok && ld.X == tgt {
+											guarded = true
+										}
+									}
+								}
+							}
+						}
+						report(guarded, prefix+".1", k("nilrecv", accessName(pt)+"."+callee.Name()), pos, "the receiver is known to be set (`!= nil` or a successful errors.As) where the method is called",
+							"`"+pt.String()+"."+callee.Name()+"()` is called on a pointer that is not known to be non-nil there (the result of errors.As is not tested, or the field is optional): the library dereferences its receiver, a plain decode error makes the parser panic")
+					}()
 					callee := x.Call.StaticCallee()
 					if callee == nil {
 						continue
